@@ -174,6 +174,21 @@ def run(ctx):
             for a, b in zip(idx, idx[1:] + [len(ps)]):
                 seg = ps[a:b]
                 creqs.append({"op": "obj.load_ssc_chart", "params": seg}); cmetas.append(("ssc_chart", seg, case))
+                # the same chart as a text with layout that must not matter to a stand-alone chart any more than to a simfile:
+                # every line indented, a blanks-only line inside a value, the last parameter unterminated and ending in blanks
+                if len(cmetas) < 4000 and rng.random() < .35:
+                    from msdparser import MSDParameter as _P
+                    t0 = "".join(str(_P(tuple(p))) + "\n" for p in seg)
+                    how = rng.choice(["indent", "blankline", "unterminated"])
+                    if how == "indent": t2 = "\n".join(rng.choice(["  ", "    ", "\t"]) + l for l in t0.split("\n"))
+                    elif how == "blankline": t2 = t0.replace(":", ":\n   \n", 1)
+                    else: t2 = t0.rstrip("\n").rstrip(";") + "   "
+                    try:
+                        p2 = objs.real_params(t2)
+                    except Exception:
+                        p2 = None
+                    if p2 is not None:
+                        creqs.append({"op": "obj.load_ssc_chart", "params": p2}); cmetas.append(("ssc_chart_text", t2, case))
             # a stand-alone chart text must begin with NOTEDATA (ValueError otherwise; StopIteration on no parameter at all)
             if ps and ps[0][0].upper() != "NOTEDATA" and len(cmetas) < 4000 and rng.random() < .2:
                 seg = ps[:rng.randrange(0, 4)]
@@ -188,6 +203,8 @@ def run(ctx):
                 got = chart_obs(lambda: SMChart.from_msd(arg), objs.dump_sm_chart)
             elif kind == "from_str":
                 got = chart_obs(lambda: SMChart.from_str(arg), objs.dump_sm_chart)
+            elif kind == "ssc_chart_text":
+                got = chart_obs(lambda: SSCChart.from_str(arg), lambda c: [[k, v] for k, v in c.items()])
             else:
                 text = "".join(str(MSDParameter(tuple(p))) + "\n" for p in arg)
                 if objs.real_params(text) != arg:
